@@ -3,7 +3,7 @@
 p=$1; src=${2:-/tmp/mut/out-$p}
 for d in $src/*/; do
   [ -f "$d/patch.diff" ] || continue
-  k=1; while [ -e /verif/seeded/$p-$k ] || [ -e /verif/seeded/void/$p-$k ]; do k=$((k+1)); done
+  k=1; while [ -e /verif/seeded/$p-$k ] || [ -e /verif/seeded/void/$p-$k ] || [ -e /verif/seeded/unreachable/$p-$k ]; do k=$((k+1)); done
   mkdir -p /verif/seeded/$p-$k
   cp "$d/patch.diff" "$d/demo.py" "$d/meta.json" /verif/seeded/$p-$k/ 2>/dev/null
   for f in "$d"/*; do case "$(basename $f)" in patch.diff|demo.py|meta.json) ;; *) cp -r "$f" /verif/seeded/$p-$k/ ;; esac; done
